@@ -100,11 +100,11 @@ def cfg_name(cfg):
 BASE = Config(False, False, False, False, 1)
 
 
-def run_config(funcs, args_list, cfg, timeout=30):
+def run_config(funcs, args_list, cfg, timeout=30, sentinel=True):
     """compile `funcs` (array or nested tuple) with the real compile() and call it on every args of args_list.
     returns (kind, values, scripts, globals): kind 'ok' -> values = list of results; 'exception'/'hang' -> values = exc"""
     import treelog
-    with Capture() as cap:
+    with Capture(sentinel) as cap:
         def go():
             with treelog.set(treelog.NullLog()), parallel.maxprocs(cfg.maxprocs), numpy.errstate(all='ignore'):
                 f = ev.compile(funcs, stats=cfg.stats, cache_const_intermediates=cfg.cache, _simplify=cfg.simplify, _optimize=cfg.optimize)
@@ -1509,6 +1509,15 @@ def run(c):
         hits.__exit__()
 
 
+def has_nonfinite(vals):
+    for v in vals:
+        for a in flatten(v)[1]:
+            a = numpy.asarray(a)
+            if a.dtype.kind in 'fc' and not numpy.isfinite(a).all():
+                return True
+    return False
+
+
 def compare_run(funcs, kind, val, lean):
     if kind != 'ok':
         return 'raises', '%s: %s' % (type(val).__name__, str(val)[:200])
@@ -1731,6 +1740,14 @@ def _run(c, quick, counts, hits, broken):
                 c.sample(dict(program=p.name, config=cfg_name(cfg), structure=repr(flatten(p.funcs)[0]), script=scripts[-1][:1500]))
             continue
         failed_scripts.update(scripts)
+        if verdict == 'mismatch' and has_nonfinite(val):
+            # NaN / inf: arithmetic of the un-simplified expression (not decidable here, as in C01) or an uninitialised cell?
+            kb, vb, _, _ = run_config(p.funcs, args_list, BASE, sentinel=False)
+            kc, vc, _, _ = run_config(p.funcs, args_list, cfg, sentinel=False)
+            if kb == 'ok' and has_nonfinite(vb) and kc == 'ok' and has_nonfinite(vc):
+                counts['meval:real-arithmetic-nonfinite'] += 1
+                counts['meval:mismatch'] -= 1
+                continue
         v2, d2, _ = evaluate_program(p.funcs, args_list, cfg, ll)     # candidate: must reproduce
         if v2 == 'ok':
             counts['meval:not-reproducible'] += 1
